@@ -14,7 +14,11 @@ import sys
 import time
 
 VERIF = os.path.dirname(os.path.dirname(os.path.abspath(__file__)))
-SCRATCH = '/tmp/verif-eval'
+# SEEDED_SLOT=n: work on a private copy of the repository (/tmp/repo-mut-n, given to the check with VERIF_REPO) and a
+# private scratch copy of /verif, so that several evaluations run side by side and /repo itself is never touched
+SLOT = os.environ.get('SEEDED_SLOT')
+SCRATCH = '/tmp/verif-eval' + ('-' + SLOT if SLOT else '')
+REPO_COPY = '/tmp/repo-mut-' + SLOT if SLOT else None
 
 
 def sh(cmd, **kw):
@@ -32,7 +36,8 @@ def sync_scratch():
 def run_check(pid, tier, timeout):
     t0 = time.time()
     try:
-        r = sh('cd %s && timeout %d ./check %s --tier %s' % (SCRATCH, timeout, pid, tier))
+        env = 'VERIF_REPO=%s ' % REPO_COPY if REPO_COPY else ''
+        r = sh('cd %s && %stimeout %d ./check %s --tier %s' % (SCRATCH, env, timeout, pid, tier))
         out = r.stdout + r.stderr
         rc = r.returncode
     except Exception as exc:  # noqa: BLE001
@@ -66,22 +71,29 @@ def main():
                 meta = got
         except Exception:  # noqa: BLE001
             pass
-    st = sh('git -C /repo status --short --untracked-files=no').stdout.strip()
-    if st:
-        raise SystemExit('/repo is not clean: ' + st)
     if not os.environ.get('SEEDED_NOSYNC'):
         sync_scratch()
-    ap = sh('git -C /repo apply %s' % os.path.join(dest, 'patch.diff'))
+    if REPO_COPY:
+        sh('rm -rf %s && mkdir -p %s && git -C /repo archive HEAD | tar -x -C %s' % (REPO_COPY, REPO_COPY, REPO_COPY))
+        ap = sh('cd %s && patch -p1 -s < %s' % (REPO_COPY, os.path.join(dest, 'patch.diff')))
+    else:
+        st = sh('git -C /repo status --short --untracked-files=no').stdout.strip()
+        if st:
+            raise SystemExit('/repo is not clean: ' + st)
+        ap = sh('git -C /repo apply %s' % os.path.join(dest, 'patch.diff'))
     if ap.returncode != 0:
-        raise SystemExit('patch does not apply: ' + ap.stderr)
+        raise SystemExit('patch does not apply: ' + ap.stderr + ap.stdout)
     results = []
     try:
         res = run_check(pid, 'quick', 1500)
         results.append(res)
-        if res['exit'] == 0:
+        if res['exit'] == 0 and not os.environ.get('SEEDED_QUICK_ONLY'):
             results.append(run_check(pid, 'thorough', 3000))
     finally:
-        sh('git -C /repo checkout -- .')
+        if REPO_COPY:
+            sh('rm -rf %s' % REPO_COPY)
+        else:
+            sh('git -C /repo checkout -- .')
     detected = any(r['exit'] == 1 for r in results)
     out = {'property': pid, 'seed': letter, 'summary': meta.get('summary'), 'files': meta.get('files'),
            'manifests_when': meta.get('manifests_when'), 'tests_after': meta.get('tests_after'),
